@@ -162,13 +162,16 @@ class OpenSystem:
                 # Time dependent standard Refield
 
                 ham.protect_basis()
-                with eigenbasis_of(ham):
-                    relaxT = TDRedfieldRelaxationTensor(ham, sbi,
-                                        cutoff_time=relaxation_cutoff_time,
-                                        as_operators=as_operators)
-                    if secular_relaxation:
-                        relaxT.secularize()
-                ham.unprotect_basis()
+                try:
+                    with eigenbasis_of(ham):
+                        relaxT = TDRedfieldRelaxationTensor(ham, sbi,
+                                            cutoff_time=relaxation_cutoff_time,
+                                            as_operators=as_operators)
+                        if secular_relaxation:
+                            relaxT.secularize()
+                finally:
+                    # also when the construction of the tensor fails
+                    ham.unprotect_basis()
 
             else:
 
@@ -176,15 +179,18 @@ class OpenSystem:
 
 
                 ham.protect_basis()
+                try:
 
-                with eigenbasis_of(ham):
-                    relaxT = RedfieldRelaxationTensor(ham, sbi,
-                                                    as_operators=as_operators)
+                    with eigenbasis_of(ham):
+                        relaxT = RedfieldRelaxationTensor(ham, sbi,
+                                                        as_operators=as_operators)
 
-                    if secular_relaxation:
-                        relaxT.secularize()
+                        if secular_relaxation:
+                            relaxT.secularize()
 
-                ham.unprotect_basis()
+                finally:
+                    # also when the construction of the tensor fails
+                    ham.unprotect_basis()
 
 
             self.RelaxationTensor = relaxT
@@ -201,13 +207,16 @@ class OpenSystem:
                 # Time dependent standard Refield
 
                 ham.protect_basis()
-                with eigenbasis_of(ham):
-                    relaxT = TDModRedfieldRelaxationTensor(ham, sbi,
-                                        cutoff_time=relaxation_cutoff_time,
-                                        as_operators=as_operators)
-                    if secular_relaxation:
-                        relaxT.secularize()
-                ham.unprotect_basis()
+                try:
+                    with eigenbasis_of(ham):
+                        relaxT = TDModRedfieldRelaxationTensor(ham, sbi,
+                                            cutoff_time=relaxation_cutoff_time,
+                                            as_operators=as_operators)
+                        if secular_relaxation:
+                            relaxT.secularize()
+                finally:
+                    # also when the construction of the tensor fails
+                    ham.unprotect_basis()
 
             else:
 
@@ -215,15 +224,18 @@ class OpenSystem:
 
 
                 ham.protect_basis()
+                try:
 
-                with eigenbasis_of(ham):
-                    relaxT = ModRedfieldRelaxationTensor(ham, sbi,
-                                                    as_operators=as_operators)
+                    with eigenbasis_of(ham):
+                        relaxT = ModRedfieldRelaxationTensor(ham, sbi,
+                                                        as_operators=as_operators)
 
-                    if secular_relaxation:
-                        relaxT.secularize()
+                        if secular_relaxation:
+                            relaxT.secularize()
 
-                ham.unprotect_basis()
+                finally:
+                    # also when the construction of the tensor fails
+                    ham.unprotect_basis()
 
 
             self.RelaxationTensor = relaxT
@@ -323,34 +335,40 @@ class OpenSystem:
                 # Time dependent combined tensor
                 ham.subtract_cutoff_coupling(coupling_cutoff)
                 ham.protect_basis()
-                with eigenbasis_of(ham):
-                    relaxT = \
-                             TDRedfieldFoersterRelaxationTensor(ham, sbi,
-                                            coupling_cutoff=coupling_cutoff,
-                                            cutoff_time=relaxation_cutoff_time)
-                    if secular_relaxation:
-                        relaxT.secularize()
-                ham.unprotect_basis()
-                ham.recover_cutoff_coupling()
+                try:
+                    with eigenbasis_of(ham):
+                        relaxT = \
+                                 TDRedfieldFoersterRelaxationTensor(ham, sbi,
+                                                coupling_cutoff=coupling_cutoff,
+                                                cutoff_time=relaxation_cutoff_time)
+                        if secular_relaxation:
+                            relaxT.secularize()
+                finally:
+                    # also when the construction of the tensor fails
+                    ham.unprotect_basis()
+                    ham.recover_cutoff_coupling()
 
             else:
 
                 # Time independent combined tensor
                 ham.subtract_cutoff_coupling(coupling_cutoff)
                 ham.protect_basis()
-                with eigenbasis_of(ham):
-                    relaxT = \
-                             RedfieldFoersterRelaxationTensor(ham, sbi,
-                                            coupling_cutoff=coupling_cutoff,
-                                            cutoff_time=relaxation_cutoff_time)
-                    if secular_relaxation:
-                        relaxT.secularize()
+                try:
+                    with eigenbasis_of(ham):
+                        relaxT = \
+                                 RedfieldFoersterRelaxationTensor(ham, sbi,
+                                                coupling_cutoff=coupling_cutoff,
+                                                cutoff_time=relaxation_cutoff_time)
+                        if secular_relaxation:
+                            relaxT.secularize()
 
-                    #print("Last line of the context", 
-                    #      Manager().get_current_basis())
-                #print("Left context", Manager().get_current_basis())
-                ham.unprotect_basis()
-                ham.recover_cutoff_coupling()
+                        #print("Last line of the context", 
+                        #      Manager().get_current_basis())
+                    #print("Left context", Manager().get_current_basis())
+                finally:
+                    # also when the construction of the tensor fails
+                    ham.unprotect_basis()
+                    ham.recover_cutoff_coupling()
 
             #
             # create a corresponding propagator
